@@ -111,6 +111,7 @@ func init() {
 		Subs: []subCheck{
 			{Name: "C04", QuickRuns: 1000000000, QuickMs: 20000, ThoroughRuns: 1000000000, ThoroughMs: 480000},
 			{Name: "C04F", QuickRuns: 1000000000, QuickMs: 20000, ThoroughRuns: 1000000000, ThoroughMs: 480000},
+			{Name: "C04T", QuickRuns: 1000000000, QuickMs: 8000, ThoroughRuns: 1000000000, ThoroughMs: 240000, Note: "extended mode: TLB retention"},
 		},
 		Rule: "C04: one evaluation = one seeded history (up to 40 operations: Map, Unmap, Translate, MapRegion, IdentityMapRegion, MapTemporary, pdt.Map/Unmap on active and inactive spaces, Activate, new address spaces through the real pdt.Init, planted huge-page entries) over a pool of pages built to share or not share every table level, with seeded allocation/temporary-mapping failures; after every operation an independent walker compares every present leaf of every address space with the page->entry model, checks new levels, TLB invalidations, bit-for-bit preservation of the active space for inactive-space operations and Translate. C04F: a short fault-free history is executed, then re-executed once per (operation j, allocation k) failing exactly that allocation (systematic fault enumeration). Non-trivial = >= 4 operations and at least one mapping established or failure injected; distinct = hash of the operation sequence.",
 		Assume:   []string{"ideal MMU: no stale TLB entries, no paging-structure caches (the TLB is an oracle input: which pages were invalidated)", "the data path of temporary mappings is shimmed (identity page of the frame)", "the arithmetic computing the next table's virtual address from the entry's virtual address is not exercised (nextAddrFn ignores its argument)"},
